@@ -444,7 +444,17 @@ func (in *inst) selectStmt(s *ast.SelectStmt, label *ast.Ident) []ast.Stmt {
 		// select {} blocks forever
 		return []ast.Stmt{wrap(&ast.ForStmt{Body: &ast.BlockStmt{List: []ast.Stmt{in.vrtStmt("Yield")}}})}
 	}
-	if hasDefault(s) {
+	ncomm := 0
+	var defClause *ast.CommClause
+	for _, c := range s.Body.List {
+		if cc := c.(*ast.CommClause); cc.Comm == nil {
+			defClause = cc
+		} else {
+			ncomm++
+		}
+	}
+	if defClause != nil && ncomm < 2 {
+		// at most one communication: nothing for the runtime to choose between
 		for _, c := range s.Body.List {
 			cc := c.(*ast.CommClause)
 			cc.Body = in.stmts(cc.Body)
@@ -455,7 +465,10 @@ func (in *inst) selectStmt(s *ast.SelectStmt, label *ast.Ident) []ast.Stmt {
 		}
 		return []ast.Stmt{in.vrtStmt("PointD", strLit("select")), wrap(s)}
 	}
-	// blocking select: hoist operands, poll in a loop, run the chosen body in a switch
+	// General form. Go picks uniformly at random among the communications that are ready; the harness must own
+	// that choice: operands are hoisted, the cases are polled ONE AT A TIME (single-case non-blocking selects) in
+	// the rotation vrt.SelectOrder decides (source order by default, every other rotation one deviation), a
+	// blocking select repeats the round with a Yield in between, and the chosen body runs in a switch afterwards.
 	var pre []ast.Stmt
 	def := func(prefix string, e ast.Expr) *ast.Ident {
 		id := in.name(prefix)
@@ -463,11 +476,16 @@ func (in *inst) selectStmt(s *ast.SelectStmt, label *ast.Ident) []ast.Stmt {
 		return id
 	}
 	use := func(id *ast.Ident) ast.Expr { return ast.NewIdent(id.Name) }
-	selv := def("sel", &ast.BasicLit{Kind: token.INT, Value: "0"})
-	var comms []ast.Stmt
+	lit := func(i int) ast.Expr { return &ast.BasicLit{Kind: token.INT, Value: strconv.Itoa(i)} }
+	selv := def("sel", lit(0))
+	var polls []ast.Stmt // case k: select { case comm_k: sel = k+1; Progress; default: }
 	var cases []ast.Stmt
-	for i, c := range s.Body.List {
+	k := 0
+	for _, c := range s.Body.List {
 		cc := c.(*ast.CommClause)
+		if cc.Comm == nil {
+			continue
+		}
 		body := in.stmts(cc.Body)
 		var comm ast.Stmt
 		var bind []ast.Stmt
@@ -509,25 +527,47 @@ func (in *inst) selectStmt(s *ast.SelectStmt, label *ast.Ident) []ast.Stmt {
 				}
 			}
 		}
-		idx := &ast.BasicLit{Kind: token.INT, Value: strconv.Itoa(i + 1)}
-		comms = append(comms, &ast.CommClause{Comm: comm, Body: []ast.Stmt{
-			&ast.AssignStmt{Lhs: []ast.Expr{use(selv)}, Tok: token.ASSIGN, Rhs: []ast.Expr{idx}},
-			in.vrtStmt("Progress"),
-		}})
-		cl := &ast.CaseClause{List: []ast.Expr{idx}, Body: append(bind, body...)}
-		if i == len(s.Body.List)-1 {
-			cl.List = nil // default: keeps the statement terminating when every body returns
-		}
+		one := &ast.SelectStmt{Body: &ast.BlockStmt{List: []ast.Stmt{
+			&ast.CommClause{Comm: comm, Body: []ast.Stmt{
+				&ast.AssignStmt{Lhs: []ast.Expr{use(selv)}, Tok: token.ASSIGN, Rhs: []ast.Expr{lit(k + 1)}},
+				in.vrtStmt("Progress"),
+			}},
+			&ast.CommClause{Comm: nil},
+		}}}
+		polls = append(polls, &ast.CaseClause{List: []ast.Expr{lit(k)}, Body: []ast.Stmt{one}})
+		cl := &ast.CaseClause{List: []ast.Expr{lit(k + 1)}, Body: append(bind, body...)}
 		cases = append(cases, cl)
+		k++
 	}
-	comms = append(comms, &ast.CommClause{Comm: nil, Body: []ast.Stmt{in.vrtStmt("Yield"), &ast.BranchStmt{Tok: token.CONTINUE}}})
-	loop := &ast.ForStmt{Body: &ast.BlockStmt{List: []ast.Stmt{
-		in.vrtStmt("PointD", strLit("select")),
-		&ast.SelectStmt{Body: &ast.BlockStmt{List: comms}},
-		&ast.BranchStmt{Tok: token.BREAK},
-	}}}
+	n := k
+	if defClause != nil {
+		cases = append(cases, &ast.CaseClause{List: nil, Body: in.stmts(defClause.Body)})
+	} else if len(cases) > 0 {
+		cases[len(cases)-1].(*ast.CaseClause).List = nil // default: keeps the statement terminating when every body returns
+	}
+	startv := def("o", in.vrtCall("SelectOrder", lit(n)))
+	kv := in.name("i")
+	round := &ast.ForStmt{
+		Init: &ast.AssignStmt{Lhs: []ast.Expr{kv}, Tok: token.DEFINE, Rhs: []ast.Expr{lit(0)}},
+		Cond: &ast.BinaryExpr{X: &ast.BinaryExpr{X: use(kv), Op: token.LSS, Y: lit(n)}, Op: token.LAND, Y: &ast.BinaryExpr{X: use(selv), Op: token.EQL, Y: lit(0)}},
+		Post: &ast.IncDecStmt{X: use(kv), Tok: token.INC},
+		Body: &ast.BlockStmt{List: []ast.Stmt{
+			&ast.SwitchStmt{Tag: &ast.BinaryExpr{X: &ast.ParenExpr{X: &ast.BinaryExpr{X: use(startv), Op: token.ADD, Y: use(kv)}}, Op: token.REM, Y: lit(n)}, Body: &ast.BlockStmt{List: polls}},
+		}},
+	}
+	var drive ast.Stmt
+	if defClause != nil {
+		drive = &ast.BlockStmt{List: []ast.Stmt{in.vrtStmt("PointD", strLit("select")), round}}
+	} else {
+		drive = &ast.ForStmt{Body: &ast.BlockStmt{List: []ast.Stmt{
+			in.vrtStmt("PointD", strLit("select")),
+			round,
+			&ast.IfStmt{Cond: &ast.BinaryExpr{X: use(selv), Op: token.EQL, Y: lit(0)}, Body: &ast.BlockStmt{List: []ast.Stmt{in.vrtStmt("Yield"), &ast.BranchStmt{Tok: token.CONTINUE}}}},
+			&ast.BranchStmt{Tok: token.BREAK},
+		}}}
+	}
 	sw := wrap(&ast.SwitchStmt{Tag: use(selv), Body: &ast.BlockStmt{List: cases}})
-	return []ast.Stmt{&ast.BlockStmt{List: append(append(pre, loop), sw)}}
+	return []ast.Stmt{&ast.BlockStmt{List: append(append(pre, drive), sw)}}
 }
 
 // commOperands rewrites nested expressions of a comm clause without touching its own channel operation.
